@@ -50,7 +50,7 @@ def gen_case(rng):
     if rng.random() < 0.3:
         items.append([alphabet[0] + 'Z' + alphabet[-1] * 2, 1])     # a character that may fall outside a tiny alphabet
     return {'items': items, 'encoding': enc, 'ngram': ngram, 'max_len': max_len, 'alphabet': rng.choice([100, 100, 2, 3]), 'coverage': 0.6,
-            'symbols': alphabet, 'hseed': rng.getrandbits(32)}
+            'symbols': alphabet, 'hseed': rng.getrandbits(32), 'prefixcount': rng.random() < 0.3}      # the same list as `uniq -c` output, trained with --prefixcount
 
 def guesser_levels(path, top, cap=60000):
     """level at which the real generator emits each string (first level), and multiplicities."""
